@@ -2,7 +2,7 @@
 #include "ssw_ghost.h"
 #include "jsgf.c"
 #include "ssw_stubs.h"
-#ifdef SSW_CBMC
+#if defined(SSW_CBMC) && !defined(VERIF_C05_RHS)
 int verif_expand_ret;
 /* expansion of the public rule: may grow the state count, leaves rules on the stack when it fails (assumed summary of
  * the recursive expand_rule/expand_rhs pair, which DFCC cannot take: recursion) */
@@ -21,4 +21,55 @@ __CPROVER_ensures(__CPROVER_return_value == NULL)
 __CPROVER_ensures(grammar->rulestack == NULL)
 ;
 void h_jsgf_build_fsg_internal(void) { jsgf_t *g; jsgf_rule_t *r; logmath_t *l; float32 lw; int c; jsgf_build_fsg_internal(g, r, l, lw, c); VERIF_CANARY(); }
+#endif
+
+#ifdef SSW_CBMC
+#ifdef VERIF_C05_RHS
+/* ---- expand_rhs on right-hand sides of <= 2 atoms: what is emitted for each kind of atom ---- */
+jsgf_rule_t *verif_subrule;     /* the rule a reference resolves to (hash lookup view) */
+int verif_sub_found;            /* is the referenced rule defined? */
+int verif_nlinks;               /* links emitted so far */
+int verif_last_from, verif_last_to; jsgf_atom_t *verif_last_atom;
+#define IS_NULL_ATOM(a) ((a)->name[0] == '<' && (a)->name[1] == 'N' && (a)->name[2] == 'U' && (a)->name[3] == 'L' && (a)->name[4] == 'L' && (a)->name[5] == '>' && (a)->name[6] == 0)
+/* assumed: rule table lookup */
+int32 hash_table_lookup(hash_table_t *h, const char *key, void **val)
+__CPROVER_requires(val != NULL)
+__CPROVER_assigns(*val)
+__CPROVER_ensures(__CPROVER_return_value == (verif_sub_found ? 0 : -1))
+__CPROVER_ensures(IMP(verif_sub_found, *val == (void *)verif_subrule))
+;
+char *jsgf_fullname_from_rule(jsgf_rule_t *rule, const char *name)
+__CPROVER_requires(1) __CPROVER_assigns() __CPROVER_ensures(__CPROVER_is_fresh(__CPROVER_return_value, 4));
+/* every link emitted for a reference to a defined rule must ENTER THAT RULE (its entry state) -- for a reference that is
+ * expanded as much as for a right-recursive one; a token or <NULL> gets a fresh state */
+void jsgf_add_link(jsgf_t *grammar, jsgf_atom_t *atom, int from, int to)
+__CPROVER_requires(grammar != NULL)
+__CPROVER_requires(IMP(atom != NULL && atom->name[0] == '<' && !IS_NULL_ATOM(atom), to == verif_subrule->entry))
+__CPROVER_requires(IMP(atom != NULL && (atom->name[0] != '<' || IS_NULL_ATOM(atom)), to == grammar->nstate))
+__CPROVER_assigns(verif_nlinks, verif_last_from, verif_last_to, verif_last_atom)
+__CPROVER_ensures(verif_nlinks == __CPROVER_old(verif_nlinks) + 1 && verif_last_from == from && verif_last_to == to && verif_last_atom == atom)
+;
+static int expand_rule(jsgf_t *grammar, jsgf_rule_t *rule)
+__CPROVER_requires(grammar != NULL && rule == verif_subrule)
+__CPROVER_assigns(grammar->nstate, rule->entry, rule->exit)
+__CPROVER_ensures(__CPROVER_return_value == -1 || (__CPROVER_return_value == rule->exit && rule->entry >= 0 && rule->exit >= 0 && rule->entry < 10000 && rule->exit < 10000))
+__CPROVER_ensures(grammar->nstate >= __CPROVER_old(grammar->nstate) && grammar->nstate <= 10000)
+;
+#define ATOM_OK(a) (__CPROVER_is_fresh(a, sizeof(jsgf_atom_t)) && __CPROVER_is_fresh((a)->name, 8) && (a)->name[0] != 0 && (a)->name[7] == 0)
+static int expand_rhs(jsgf_t *grammar, jsgf_rule_t *rule, jsgf_rhs_t *rhs)
+__CPROVER_requires(__CPROVER_is_fresh(grammar, sizeof(*grammar)) && __CPROVER_is_fresh(rule, sizeof(*rule)) && __CPROVER_is_fresh(rhs, sizeof(*rhs)))
+__CPROVER_requires(0 <= grammar->nstate && grammar->nstate <= 1000 && 0 <= rule->entry && rule->entry < 1000)
+__CPROVER_requires(__CPROVER_is_fresh(verif_subrule, sizeof(jsgf_rule_t)) && 0 <= verif_subrule->entry && verif_subrule->entry < 1000 && verif_nlinks == 0)
+/* one atom (the second position is where "atoms follow" matters: left / embedded recursion) */
+__CPROVER_requires(__CPROVER_is_fresh(rhs->atoms, sizeof(gnode_t)) && ATOM_OK((jsgf_atom_t *)rhs->atoms->data.ptr))
+__CPROVER_requires(rhs->atoms->next == NULL || (__CPROVER_is_fresh(rhs->atoms->next, sizeof(gnode_t)) && rhs->atoms->next->next == NULL && ATOM_OK((jsgf_atom_t *)rhs->atoms->next->data.ptr)))
+/* the rule stack holds the referenced rule or not */
+__CPROVER_requires(grammar->rulestack == NULL || (__CPROVER_is_fresh(grammar->rulestack, sizeof(gnode_t)) && grammar->rulestack->next == NULL && grammar->rulestack->data.ptr == (void *)verif_subrule))
+__CPROVER_assigns(grammar->nstate, verif_subrule->entry, verif_subrule->exit, verif_nlinks, verif_last_from, verif_last_to, verif_last_atom)
+/* refusals: <VOID>, undefined rule, recursion with atoms following */
+__CPROVER_ensures(IMP(__CPROVER_return_value >= 0, verif_nlinks >= 1))
+__CPROVER_ensures(__CPROVER_return_value >= -2)
+;
+void h_expand_rhs(void) { jsgf_t *g; jsgf_rule_t *r; jsgf_rhs_t *h; expand_rhs(g, r, h); VERIF_CANARY(); }
+#endif
 #endif
